@@ -1,1 +1,95 @@
-/-! C09 — property theorems (placeholder until the model exists). -/
+import EupsModel.Lemmas.LockEx
+/-! C09 — exclusive database locks exclude every other holder under all interleavings.
+
+Property theorems only.  Model: `Model/Lock.lean` (one transition = one file-system call of one process, in the
+order `lock.py` issues them).  Helper lemmas: `Lemmas/LockStep.lean`, `Lemmas/LockEx.lean`.
+
+The property as stated — `Mutex` in every reachable state, for every configuration and schedule — is FALSE of the
+protocol (`C09_mutex_false`, from three concrete races, the known findings D12a/b/c).  What is proved instead is
+stated below with its hypothesis named. -/
+namespace EupsModel.C09
+open EupsModel.Lock
+
+/-- The property's first sentence, as stated: in every reachable state of every configuration. -/
+def MutexAlways : Prop :=
+  ∀ (kind : Pid → Kind) (lp : Pid → Option Pid) (tries : Pid → Nat) (sched : List Pid),
+    Mutex (run (init kind lp tries) sched)
+
+/-! ### exclusive requesters only (hypothesis: every request is exclusive and nobody re-enters a parent's lock) -/
+
+/-- Any number of updaters, any `ntry`, every interleaving of their file-system calls: never two of them between the
+return of `takeLocks` and the call of `giveLocks`, and `Mutex` holds. -/
+theorem C09_mutex_exclusive_only (kind : Pid → Kind) (lp : Pid → Option Pid) (tries : Pid → Nat)
+    (hk : ∀ i, kind i = .ex) (hl : ∀ i, lp i = none) (sched : List Pid) :
+    (∀ i j, (run (init kind lp tries) sched).pc i = .hold → (run (init kind lp tries) sched).pc j = .hold → i = j)
+    ∧ Mutex (run (init kind lp tries) sched) := by
+  have h := exInv_run _ (exInv_init kind lp tries hk hl) sched
+  refine ⟨fun i j hi hj => h.uniq i j (by simp [hi, inside]) (by simp [hj, inside]), ?_⟩
+  intro i j hij _ hi _
+  cases hb : inBody ((run (init kind lp tries) sched).pc j) with
+  | false => rfl
+  | true =>
+    have hj : (run (init kind lp tries) sched).pc j = .hold ∨ (run (init kind lp tries) sched).pc j = .unlocked := by
+      cases hpc : (run (init kind lp tries) sched).pc j <;> simp_all [inBody]
+    cases hj with
+    | inl hj => exact absurd (h.uniq i j (by simp [hi, inside]) (by simp [hj, inside])) hij
+    | inr hj => exact absurd hj (h.noSh j).2.2
+
+/-- ... and they leave nothing behind: when none of them is inside, the directory and the files are gone. -/
+theorem C09_no_residue_exclusive_only (kind : Pid → Kind) (lp : Pid → Option Pid) (tries : Pid → Nat)
+    (hk : ∀ i, kind i = .ex) (hl : ∀ i, lp i = none) (sched : List Pid)
+    (hq : ∀ i, inside ((run (init kind lp tries) sched).pc i) = false) :
+    (run (init kind lp tries) sched).dir = false ∧ (run (init kind lp tries) sched).files = [] := by
+  have h := exInv_run _ (exInv_init kind lp tries hk hl) sched
+  constructor
+  · cases hd : (run (init kind lp tries) sched).dir with
+    | false => rfl
+    | true => obtain ⟨i, hi⟩ := h.dirIff.mp hd; rw [hq i] at hi; exact absurd hi (by simp)
+  · exact h.filesN (fun i => not_hasFile_of_not_inside (hq i))
+
+/-- non-vacuity: three updaters with two attempts each; one of them holds, one has been refused for good -/
+example :
+    let s := run (init (fun _ => .ex) (fun _ => none) (fun _ => 1)) [0, 0, 0, 1, 1, 1, 1, 1, 1, 2]
+    s.pc 0 = .hold ∧ s.pc 1 = .failedAcq .runtime ∧ s.pc 2 = .scanAll 1 := by decide
+
+/-! ### the three races: the full statement is false -/
+
+def kinds (l : List Kind) : Pid → Kind := fun i => l.getD i .sh
+def noParent : Pid → Option Pid := fun _ => none
+def once : Pid → Nat := fun _ => 0
+
+/-- D12a, scan before create (two processes): E `mkdir`; S `mkdir` (EEXIST), `exists`, scan — no exclusive file
+yet; E scan; S create; E create: an exclusive and a shared holder together. -/
+theorem C09_scan_before_create_witness :
+    let s := run (init (kinds [.ex, .sh]) noParent once) [0, 1, 1, 1, 0, 1, 0]
+    s.pc 0 = .hold ∧ s.pc 1 = .hold ∧ s.kind 0 = .ex ∧ ¬ related s 0 1 := by decide
+
+/-- D12b, stale `rmdir` (three processes): E₁ `mkdir`; S acquires and releases completely while E₁ has not yet
+created its file, counts 0 files and removes E₁'s directory; E₀'s `mkdir` succeeds; both scan, both create:
+two exclusive holders. -/
+theorem C09_stale_rmdir_witness :
+    let s := run (init (kinds [.ex, .ex, .sh]) noParent once) [1, 2, 2, 2, 2, 2, 2, 2, 2, 2, 2, 0, 1, 0, 0, 1]
+    s.pc 0 = .hold ∧ s.pc 1 = .hold ∧ s.kind 0 = .ex ∧ s.kind 1 = .ex ∧ ¬ related s 0 1 := by decide
+
+/-- D12c, "proceeding with trepidation": S₀ `mkdir` (EEXIST) while S₁ holds; S₁ releases and removes the directory;
+S₀'s `exists` answers False and S₀ runs its command without a lock while E₂ acquires an exclusive one. -/
+theorem C09_trepidation_witness :
+    let s := run (init (kinds [.sh, .sh, .ex]) noParent once) [1, 1, 1, 1, 0, 1, 1, 1, 1, 1, 0, 2, 2, 2]
+    s.pc 2 = .hold ∧ s.kind 2 = .ex ∧ s.pc 0 = .unlocked ∧ ¬ related s 2 0 := by decide
+
+/-- With re-entry even exclusive requesters alone race: C (child of P) passes the parent test while P holds; P
+releases and removes the directory; X's `mkdir` succeeds; C and X scan before either creates.  So the hypothesis
+"nobody re-enters" of `C09_mutex_exclusive_only` cannot be dropped. -/
+theorem C09_exclusive_reentry_race_witness :
+    let s := run (init (fun _ => .ex) (fun i => if i = 1 then some 0 else none) once)
+      [0, 0, 0, 1, 1, 0, 0, 0, 0, 0, 0, 2, 1, 2, 1, 2]
+    s.pc 1 = .hold ∧ s.pc 2 = .hold ∧ s.kind 1 = .ex ∧ ¬ related s 1 2 := by decide
+
+/-- The property as stated is false of the protocol. -/
+theorem C09_mutex_false : ¬ MutexAlways := by
+  intro h
+  have hm := h (kinds [.ex, .sh]) noParent once [0, 1, 1, 1, 0, 1, 0]
+  have w := C09_scan_before_create_witness
+  exact absurd (hm 0 1 (by decide) w.2.2.2 w.1 w.2.2.1) (by rw [w.2.1]; decide)
+
+end EupsModel.C09
